@@ -309,6 +309,9 @@ class Case:
         # strings the function library can produce
         for extra in (b'float64', b'string', b'bool', b'null', b'[]interface {}', b'map[string]interface {}', b'json.Number'):
             strings.add(extra)
+        if regexes and any('<go:' in doc_json_text(d) for d in self.docs):
+            for _, ty, _ in KINDS.values():
+                strings.add(ty)
         matches = [[hx(r), hx(s)] for r in regexes for s in sorted(strings)] if regexes else []
         return json.dumps({'id': self.id, 'floats_hex': [hx(f) for f in floats],
                            'regexes_hex': [hx(r) for r in regexes], 'matches_hex': matches})
